@@ -625,6 +625,41 @@ def f5_state(check, prog):
                 src = ast.unparse(root.func)
                 if src == 'type' or src.endswith('__class__'):
                     bad.append((n, 'writes class state %s' % norm_src(tgt)))
+        # in-place updates of something the object holds, through a local alias
+        # (`phi = self._phi_pts; phi -= a`): the syntax above sees a local name,
+        # the evaluator sees the storage it stands for
+        if owner in theory_like and selfname and fd.name != '__init__' and \
+                not init_only(cg, prog, owner, q):
+            try:
+                ite_ = Interp(prog, max_depth=1)
+                ite_.analyze(q)
+                ws = writes(ite_)
+            except AnalysisError:
+                ws = []
+            for e, st_, rs in ws:
+                if e['kind'] not in ('augassign', 'setitem', 'mutcall'):
+                    continue
+                if ('param', selfname) not in rs or ('fresh',) in rs or \
+                        ('maybe-fresh',) in rs:
+                    continue
+                t_ = st_
+                while t_[0] in ('attr', 'idx', 'upd') and t_[1][0] != 'sym':
+                    t_ = t_[1]
+                if not (t_[0] == 'attr' and t_[1] == sym(selfname)):
+                    continue
+                src_ = e.get('target_src') or e.get('method') or ''
+                if isinstance(src_, str) and src_.startswith(selfname + '.'):
+                    continue      # spelled on self: reported by the scan above
+                attr_ = t_[2]
+                hit_ = prog.lookup(owner, attr_)
+                if hit_ and hit_[0] == 'property':
+                    # a computed attribute the evaluator could not inline: what
+                    # it hands out is not known to be the object's storage
+                    continue
+                bad.append((fd, 'updates self.%s in place through the local name '
+                            '%s (line %d): the next use, in this calculation or the '
+                            'next, starts from the updated array' % (
+                                attr_, src_, e['lineno'])))
         construct = short
         if bad:
             for n, why in bad:
@@ -748,9 +783,13 @@ def call_local(cg, prog, entries, owner, w, attr):
     return True
 
 
-def init_only(cg, prog, owner, q):
+def init_only(cg, prog, owner, q, _seen=None):
     """True if method q of a theory-like class is only ever called from the
     class's own __init__ chain (set-up code, e.g. Lens._setup_quadrature)."""
+    _seen = set() if _seen is None else _seen
+    if q in _seen:
+        return False          # a cycle of callers never reaches a constructor
+    _seen = _seen | {q}
     name = q.rpartition('.')[2]
     callers = []
     for f in cg.funcs:
@@ -767,7 +806,7 @@ def init_only(cg, prog, owner, q):
                                         prog.is_subclass(owner, fo)):
             continue
         if fo and (prog.is_subclass(fo, owner) or prog.is_subclass(owner, fo)) and \
-                init_only(cg, prog, fo, f) and f != q:
+                f != q and init_only(cg, prog, fo, f, _seen):
             continue
         ok = False
     return ok
